@@ -795,7 +795,9 @@ def withdraw_rules(R, env, prog, hctx, rule, pid):
         # a batch that passed the status == Received test has its received amount (invariant
         # Withdraw:received-set-with-status below): `received.or(fallback)` is `received`
         recv_some = ((lambda t_: t_[0] == "field" and t_[2] == "received_native_unstaked" and batch(t_[1])), ("ok", True))
-        cand = (list(_forms(prog, amt, 2)) + list(_forms(prog, amt, 3, (recv_some,)))) if amt is not None else []
+        # (the payout is only reached for a batch whose status is Received: Withdraw:only-received-batches)
+        st_recv = ((lambda t_: t_[0] == "field" and t_[2] == "status" and batch(t_[1])), ("variant", "Received"))
+        cand = (list(_forms(prog, amt, 2)) + list(_forms(prog, amt, 3, (recv_some,))) + list(_forms(prog, amt, 4, (recv_some, st_recv)))) if amt is not None else []
         for af in cand:
             # (a helper such as compute_withdraw_amount(received, request, total), or an accessor of the batch
             # such as batch.withdrawable_native(), is looked through)
@@ -946,6 +948,15 @@ def is_fee(prog, t, _lift=True):
     return ((rate(a) and is_reward(prog, b)) or (rate(b) and is_reward(prog, a))) and const_int(c) == 100000
 
 
+def returns_its_input(body):
+    """every value the (Result / Option returning) function can hand back as Ok / Some — built directly or through
+    `cond.then(|| s.to_string()).ok_or(..)` — is its first parameter"""
+    from engine.analysis import ok_payload as _okp
+    pv = _okp(Ctx(body).T.return_term())
+    vs = list(pv[1]) if pv[0] == "phi" else [pv]
+    return bool(vs) and all(v_[0] == "param" and v_[1] == 1 for v_ in vs)
+
+
 def treasury_pred(prog):
     return lambda t: loaded_field(prog, t, "config", ["protocol_fee_config", "treasury_address"], "staking")
 
@@ -983,8 +994,11 @@ def address_validator_shape(R, prog, key, rule, tag="address"):
     found = []
     ok, off = guarded(c, Guard("prefix", boolean=pfx), prog, 2, found)
     R.ob(rule, tag + ":prefix-must-match", ok, "an address whose DECODED prefix differs from the expected prefix is accepted (a textual starts_with test is not enough: `osmovaloper1..` starts with `osmo`): %s" % (off,), fn=key, found=found)
-    oks = [e for e in exits(c) if e["kind"] == "ok"]
-    R.ob(rule, tag + ":returns-input", bool(oks) and all(e["term"][3][0][2][0] == "param" and e["term"][3][0][2][1] == 1 for e in oks), "the validated address returned is not the input string", fn=key)
+    # every value that can come back as Ok(..) — built directly or through `cond.then(|| ..).ok_or_else(..)` — is the input
+    from engine.analysis import ok_payload as _okp
+    pv = _okp(c.T.return_term())
+    oks = list(pv[1]) if pv[0] == "phi" else [pv]
+    R.ob(rule, tag + ":returns-input", bool(oks) and all(v_[0] == "param" and v_[1] == 1 for v_ in oks), "the validated address returned is not the input string", fn=key)
 
 
 def received_set_with_status(R, env, prog, rule, name):
